@@ -204,6 +204,16 @@ def check(doc, warn, reads, kinds, raw_enabled, file_ins):
         nodes_n = len([m for m in doc.findall(nodes.system_message) if "Raw content disabled" in m.astext()])
         if nodes_n != exp_removed:
             return ("raw-warning-count", "%d 'Raw content disabled' message nodes for %d removed raw nodes (constructs %r)" % (nodes_n, exp_removed, kinds))
+        if n != exp_removed:
+            return ("raw-warning-count", "%d 'Raw content disabled' lines on the warning stream for %d removed raw nodes (constructs %r)" % (n, exp_removed, kinds))
+    # the doctree stays a tree: no node object sits in two places (later transforms remove nodes through their parent)
+    seen_ids = set()
+    for nd in doc.findall():
+        if isinstance(nd, nodes.Text):
+            continue
+        if id(nd) in seen_ids or (nd.parent is not None and not any(ch is nd for ch in nd.parent.children)):
+            return ("node-shared", "the %s node %r is placed in the document more than once" % (nd.tagname, nd.astext()[:60]))
+        seen_ids.add(id(nd))
     return None
 
 
